@@ -16,5 +16,92 @@ package fs
 //@   requires fdb != nil && lk != nil && len(lk.Default) >= 1 && int(lk.Default[0]) < 208 && (lk.Translation != nil ==> len(lk.Translation) >= 1 && int(lk.Translation[0]) < 208)
 //@   requires lk.Translation == nil || !sameBacking(lk.Translation, lk.Default)
 //@   modifies lk.Default[0], lk.Translation[0]
+//@   use str(lk.Default) == old(fileName(lk.Default))
+//@   use old(lk.Translation) != nil ==> str(lk.Translation) == old(fileName(lk.Translation))
 //@   ensures @default result1 == nil && result0.Default == pjoin(fdb.dir, old(fileName(lk.Default)))
 //@   ensures @trans (old(lk.Translation) == nil ==> result0.Translation == "") && (old(lk.Translation) != nil ==> result0.Translation == pjoin(fdb.dir, old(fileName(lk.Translation))))
+// only the type byte is touched: the key text (what altPathFor reads afterwards) and the slice headers stay
+//@   ensures @tail lk.Default == old(lk.Default) && lk.Translation == old(lk.Translation) && str(lk.Default[1:]) == old(str(lk.Default[1:]))
+//@     && (lk.Translation != nil ==> str(lk.Translation[1:]) == old(str(lk.Translation[1:])))
+
+// ---- names ----
+// the key text the store works with: base64 in binary-key mode
+//@ ghost kText(fdb, key) = ite(fdb.binary, b64enc(str(key)), str(key))
+//@ ghost binSuffix(fdb) = ite(fdb.DbBase.baseDb.pfx == db.DATATYPE_BIN, ".bin", "")
+// primary record names (type byte shifted into the printable range) and the legacy names without the type byte
+//@ ghost defName(fdb, key) = chr(int(fdb.DbBase.baseDb.pfx) + 48) + db.skeyT(fdb.DbBase, kText(fdb, key))
+//@ ghost trName(fdb, ctx, key) = chr(int(fdb.DbBase.baseDb.pfx) + 48) + (db.skeyT(fdb.DbBase, kText(fdb, key)) + db.transSuffix(fdb.DbBase, ctx))
+//@ ghost altDefName(fdb, key) = db.skeyT(fdb.DbBase, kText(fdb, key)) + binSuffix(fdb)
+//@ ghost altTrName(fdb, ctx, key) = (db.skeyT(fdb.DbBase, kText(fdb, key)) + db.transSuffix(fdb.DbBase, ctx)) + binSuffix(fdb)
+
+//@ func (*fsDb).ToKey
+//@   serves C10, C11
+//@   requires fsOk(fdb) && ctx != nil
+//@   premise !sameBacking(key, fdb.DbBase.baseDb.sid)
+//@   modifies fdb.DbBase.baseDb.sid[len(fdb.DbBase.baseDb.sid):cap(fdb.DbBase.baseDb.sid)], key[len(key):cap(key)]
+//@   ensures @err (result1 != nil) == (fdb.DbBase.baseDb.pfx == 0)
+//@   ensures @default result1 == nil ==> result0.Default != nil && fresh(result0.Default)
+//@     && str(result0.Default) == chr(fdb.DbBase.baseDb.pfx) + old(db.skeyT(fdb.DbBase, kText(fdb, key)))
+//@   ensures @notrans result1 == nil && !old(db.hasTrans(fdb.DbBase, ctx)) ==> result0.Translation == nil
+//@   ensures @trans result1 == nil && old(db.hasTrans(fdb.DbBase, ctx)) ==> result0.Translation != nil && fresh(result0.Translation)
+//@     && !sameBacking(result0.Translation, result0.Default)
+//@     && str(result0.Translation) == chr(fdb.DbBase.baseDb.pfx) + old(db.skeyT(fdb.DbBase, kText(fdb, key))) + old(db.transSuffix(fdb.DbBase, ctx))
+//@   ensures @sid str(fdb.DbBase.baseDb.sid) == old(str(fdb.DbBase.baseDb.sid))
+// the same, split into type byte and text (what pathFor / altPathFor consume)
+//@   ensures @deftext result1 == nil ==> len(result0.Default) >= 1 && result0.Default[0] == fdb.DbBase.baseDb.pfx
+//@     && str(result0.Default[1:]) == old(db.skeyT(fdb.DbBase, kText(fdb, key)))
+//@   ensures @trtext result1 == nil && result0.Translation != nil ==> len(result0.Translation) >= 1 && result0.Translation[0] == fdb.DbBase.baseDb.pfx
+//@     && str(result0.Translation[1:]) == old(db.skeyT(fdb.DbBase, kText(fdb, key))) + old(db.transSuffix(fdb.DbBase, ctx))
+
+// legacy names: the type byte is dropped (and ".bin" appended for bytecode)
+//@ func (*fsDb).altPathFor
+//@   serves C10, C11
+//@   requires fsOk(fdb) && lk != nil && len(lk.Default) >= 1 && (lk.Translation != nil ==> len(lk.Translation) >= 1)
+//@   ensures @default result1 == nil && result0.Default == pjoin(fdb.dir, str(lk.Default[1:]) + binSuffix(fdb))
+//@   ensures @trans (lk.Translation == nil ==> result0.Translation == "") && (lk.Translation != nil ==> result0.Translation == pjoin(fdb.dir, str(lk.Translation[1:]) + binSuffix(fdb)))
+
+// the record a Put writes and a Get reads first
+//@ ghost defPath(fdb, key) = pjoin(fdb.dir, defName(fdb, key))
+//@ ghost trPath(fdb, ctx, key) = pjoin(fdb.dir, trName(fdb, ctx, key))
+//@ ghost altDefPath(fdb, key) = pjoin(fdb.dir, altDefName(fdb, key))
+//@ ghost altTrPath(fdb, ctx, key) = pjoin(fdb.dir, altTrName(fdb, ctx, key))
+//@ ghost recPath(fdb, ctx, key) = ite(db.hasTrans(fdb.DbBase, ctx), trPath(fdb, ctx, key), defPath(fdb, key))
+//@ pred writable(fdb) = forall(n, 0, 8, !(bit(fdb.DbBase.baseDb.pfx, n) && bit(fdb.DbBase.baseDb.lock, n)))
+
+// Put: refused while the data type is locked (no file changes); otherwise the
+// record file of (type, session, key, language) holds exactly the value (C10).
+// Data types are single bits below 64; the type byte shifted by 0x30 stays a byte (premise).
+//@ func (*fsDb).Put
+//@   serves C10
+//@   requires fsOk(fdb) && ctx != nil
+//@   premise !sameBacking(key, fdb.DbBase.baseDb.sid) && int(fdb.DbBase.baseDb.pfx) < 208 && !sameBacking(val, key) && !sameBacking(val, fdb.DbBase.baseDb.sid)
+//@   modifies fdb.DbBase.baseDb.sid[len(fdb.DbBase.baseDb.sid):cap(fdb.DbBase.baseDb.sid)], key[len(key):cap(key)]
+//@   modifies fsExists[recPath(fdb, ctx, key)], fsContent[recPath(fdb, ctx, key)]
+//@   ensures[C10] @locked !old(writable(fdb)) ==> result != nil && all[string](p, fsExists(p) == old(fsExists(p)) && fsContent(p) == old(fsContent(p)))
+//@   ensures[C10] @notype fdb.DbBase.baseDb.pfx == 0 ==> result != nil
+//@   ensures[C10] @written result == nil ==> fsExists(old(recPath(fdb, ctx, key))) && fsContent(old(recPath(fdb, ctx, key))) == old(str(val))
+//@   ensures @session str(fdb.DbBase.baseDb.sid) == old(str(fdb.DbBase.baseDb.sid))
+
+// Get: the first of {record, legacy name} x {translation, default} that exists (C10).
+//@ pred present(p) = p != "" && fsExists(p)
+//@ ghost trOrNone(fdb, ctx, key) = ite(db.hasTrans(fdb.DbBase, ctx), trPath(fdb, ctx, key), "")
+//@ ghost altTrOrNone(fdb, ctx, key) = ite(db.hasTrans(fdb.DbBase, ctx), altTrPath(fdb, ctx, key), "")
+//@ func (*fsDb).Get
+//@   serves C10
+//@   requires fsOk(fdb) && ctx != nil
+//@   premise !sameBacking(key, fdb.DbBase.baseDb.sid) && int(fdb.DbBase.baseDb.pfx) < 208
+//@   modifies fdb.DbBase.baseDb.sid[len(fdb.DbBase.baseDb.sid):cap(fdb.DbBase.baseDb.sid)], key[len(key):cap(key)]
+//@   ensures[C10] @some result1 == nil ==> present(old(trOrNone(fdb, ctx, key))) || present(old(altTrOrNone(fdb, ctx, key))) || present(old(defPath(fdb, key))) || present(old(altDefPath(fdb, key)))
+//@   ensures[C10] @first result1 == nil && present(old(trOrNone(fdb, ctx, key))) ==> str(result0) == fsContent(old(trOrNone(fdb, ctx, key)))
+//@   ensures[C10] @second result1 == nil && !present(old(trOrNone(fdb, ctx, key))) && present(old(altTrOrNone(fdb, ctx, key))) ==> str(result0) == fsContent(old(altTrOrNone(fdb, ctx, key)))
+//@   ensures[C10] @third result1 == nil && !present(old(trOrNone(fdb, ctx, key))) && !present(old(altTrOrNone(fdb, ctx, key))) && present(old(defPath(fdb, key)))
+//@     ==> str(result0) == fsContent(old(defPath(fdb, key)))
+//@   ensures[C10] @fourth result1 == nil && !present(old(trOrNone(fdb, ctx, key))) && !present(old(altTrOrNone(fdb, ctx, key))) && !present(old(defPath(fdb, key)))
+//@     ==> str(result0) == fsContent(old(altDefPath(fdb, key)))
+//@   ensures[C10] @missing fdb.DbBase.baseDb.pfx != 0 && !present(old(trOrNone(fdb, ctx, key))) && !present(old(altTrOrNone(fdb, ctx, key))) && !present(old(defPath(fdb, key)))
+//@     && !present(old(altDefPath(fdb, key))) ==> typeis[db.ErrNotFound](result1)
+// the property's claim: a key whose record was never written is not found (C10) -- whatever else is in the directory
+//@   ensures[C10,C11] @unwritten fdb.DbBase.baseDb.pfx != 0 && !present(old(trOrNone(fdb, ctx, key))) && !present(old(defPath(fdb, key))) ==> typeis[db.ErrNotFound](result1)
+//@   ensures @session str(fdb.DbBase.baseDb.sid) == old(str(fdb.DbBase.baseDb.sid))
+// _i: number of candidates already tried
+//@   loop 1 invariant @none f == nil && (_i >= 1 ==> !present(flk.Translation)) && (_i >= 2 ==> !present(flka.Translation)) && (_i >= 3 ==> !present(flk.Default)) && (_i >= 4 ==> !present(flka.Default))
